@@ -40,7 +40,7 @@ func PluginRef(r *rand.Rand) string {
 	}
 	pool := []string{"v1.2.3", "main", "master", "v4", "feature/x", "1.0", "release-2", "a_b", "0", "v1.0.0-beta.1",
 		// refs that are filled in later (matrix tokens, env references) or are not plain ASCII words
-		"{{matrix.version}}", "{{matrix}}", "{{ matrix.v }}", "${VER}", "$VER", "v{{matrix.major}}.x", "é", "v1 x", "release/{{matrix}}"}
+		"refs/tags/v1.2.3", "refs/heads/main", "refs/tags/release/2", "{{matrix.version}}", "{{matrix}}", "{{ matrix.v }}", "${VER}", "$VER", "v{{matrix.major}}.x", "é", "v1 x", "release/{{matrix}}"}
 	if r.IntN(2) == 0 {
 		return pool[r.IntN(len(pool))]
 	}
